@@ -84,10 +84,10 @@ def cfAttempt (n x : Nat) (a b c : Int) : Option (List Nat) :=
 
 /-- body of the loop for one `(quot, _, v)`: `some result` to return, `none` to continue. -/
 def cfStep (n x bound quot v : Nat) : Except PyErr (Option (Bool × List Nat)) :=
-  match divmodRounded ((n : Int) * v) x with
+  match divmodRoundedR ((n : Int) * v) x with
   | .error e => .error e
   | .ok (r, c) =>
-    match divmodRounded r x with
+    match divmodRoundedR r x with
     | .error e => .error e
     | .ok (a, b) =>
       match cfAttempt n x a b c with
